@@ -227,6 +227,10 @@ var kFastqWrite = register(&Kind{Name: "fastq_write",
 			b, err := f.MarshalText()
 			if err != nil {
 				m = vErr
+			} else if !marshalKeeps(b, func() {
+				(&fastq.Fastq{Name: []byte("another record"), Sequence: bytes.Repeat([]byte("T"), 200), Quals: bytes.Repeat([]byte("#"), 200)}).MarshalText()
+			}) {
+				m = vMarshalAliased
 			} else {
 				m = vOk(B(b))
 			}
@@ -637,7 +641,7 @@ func init() {
 				c.fqRunRoundtrip(recs, false, "roundtrip/long-read")
 			}
 		}
-		for _, ln := range []int{4095, 4096, 4097, 20000, 65534, 65535, 65536, 65537, 65538, 70000, 131072, 200000, 1 << 20} {
+		for _, ln := range []int{4095, 4096, 4097, 20000, 65534, 65535, 65536, 65537, 65538, 70000, 131072, 200000, 1 << 20, 1<<20 + 1, 2<<20 + 5} {
 			recs := []*fastq.Fastq{c.fqRecord(3), c.fqRecord(ln), c.fqRecord(2)}
 			c.fqRunRoundtrip(recs, true, "roundtrip/long-read-impl-only")
 		}
